@@ -331,12 +331,10 @@ func (g *gen) exoticKey(k string) string {
 	}
 	var b strings.Builder
 	b.WriteByte('"')
-	done := false
 	target := g.r.Intn(utf8.RuneCountInString(k))
 	ri := 0
 	for _, r := range k {
 		if ri == target || (r == '/' && g.r.Intn(2) == 0) {
-			done = true
 			switch {
 			case r == '/':
 				b.WriteString(`\/`)
@@ -356,7 +354,6 @@ func (g *gen) exoticKey(k string) string {
 		}
 		ri++
 	}
-	_ = done
 	b.WriteByte('"')
 	return b.String()
 }
